@@ -665,7 +665,14 @@ impl<SE: extensions::ShellExtensions> ExecuteInPipeline<SE> for ast::Command {
                 // Set up any additional redirects.
                 if let Some(redirects) = redirects {
                     for redirect in &redirects.0 {
-                        setup_redirect(&mut pipeline_context.shell, &mut params, redirect).await?;
+                        // N.B. As with a simple command, a redirection that can't be set up
+                        // fails this command; it doesn't abort the enclosing list.
+                        if let Err(e) =
+                            setup_redirect(&mut pipeline_context.shell, &mut params, redirect).await
+                        {
+                            writeln!(params.stderr(&pipeline_context.shell), "error: {e}")?;
+                            return Ok(ExecutionResult::general_error().into());
+                        }
                     }
                 }
 
